@@ -470,4 +470,47 @@ theorem runState_bounded (cfg : Cfg) (le : α → α → Bool) : ∀ (ops : List
   | op :: ops, s, h, hb =>
     runState_bounded cfg le ops _ (step_inv cfg le s h op) (step_bounded cfg le s h hb op)
 
+theorem ofList_bounded (cfg : Cfg) (l : List α) : Bounded cfg (ISet.ofList l) :=
+  foldl_add_bounded cfg l _ inv_empty (bounded_noDead cfg _ inv_empty.toInvC rfl)
+
+theorem resultSet_bounded (cfg : Cfg) (o : Out α) : Bounded cfg (resultSet o) := by
+  cases o <;> first | exact ofList_bounded cfg _ | exact bounded_noDead cfg _ inv_empty.toInvC rfl
+
+/-- with several live sets: every set of the register file stays within the thresholds -/
+theorem mstep_bounded (cfg : Cfg) (le : α → α → Bool) (m : Mach α) (h : ∀ s ∈ m.regs, Inv s)
+    (hB : ∀ s ∈ m.regs, Bounded cfg s) (hb : m.cur < m.regs.length) (op : MOp α) :
+    ∀ s ∈ (mstep cfg le m op).1.regs, Bounded cfg s := by
+  have hc : Inv m.curSet ∧ Bounded cfg m.curSet := by
+    unfold Mach.curSet
+    rw [List.getElem?_eq_getElem hb]
+    exact ⟨h _ (List.getElem_mem _), hB _ (List.getElem_mem _)⟩
+  cases op with
+  | sel k =>
+    simp only [mstep]
+    by_cases hk : k < m.regs.length
+    · rw [if_pos hk]; exact hB
+    · rw [if_neg hk]; exact hB
+  | run f =>
+    simp only [mstep]
+    intro s hs
+    rcases List.mem_or_eq_of_mem_set hs with hs | hs
+    · exact hB s hs
+    · rw [hs]; exact step_bounded cfg le _ hc.1 hc.2 _
+  | fork f =>
+    simp only [mstep]
+    intro s hs
+    rcases List.mem_append.1 hs with hs | hs
+    · rcases List.mem_or_eq_of_mem_set hs with hs | hs
+      · exact hB s hs
+      · rw [hs]; exact step_bounded cfg le _ hc.1 hc.2 _
+    · rw [List.mem_singleton.1 hs]; exact resultSet_bounded cfg _
+
+theorem mrunState_bounded (cfg : Cfg) (le : α → α → Bool) : ∀ (ops : List (MOp α)) (m : Mach α),
+    (∀ s ∈ m.regs, Inv s) → (∀ s ∈ m.regs, Bounded cfg s) → m.cur < m.regs.length →
+    (∀ s ∈ (mrunState cfg le m ops).regs, Bounded cfg s)
+  | [], _, _, hB, _ => hB
+  | op :: ops, m, h, hB, hb =>
+    mrunState_bounded cfg le ops _ (mstep_inv cfg le m h hb op).1 (mstep_bounded cfg le m h hB hb op)
+      (mstep_inv cfg le m h hb op).2
+
 end C11
